@@ -151,6 +151,35 @@ def completeInconsistent (nf : Nat) (kb : List Rule) (before : Facts) (maxDepth 
     (provable : Bool) : Bool :=
   !interferenceClause nf kb before maxDepth goal || provable
 
+/-! ### (iv-c) dead-end rules do not cost completeness (U09)
+
+A rule is a DEAD END for the query when every value it assigns is wanted by nobody: no rule condition and not the goal
+compares that field with that value (all comparisons are equalities here).  Tried as a candidate for a sub-goal `f == v`
+it fires (or not), the check of `f == v` fails, and its undo frame is rolled back — with everything its firing and the
+sub-proofs of its own conditions wrote, in whichever enclosing frame a key was recorded before (C10).  So the verdict is the
+one on the knowledge base WITHOUT the dead ends: if that is consistent-Horn (clause (iv)'s fragment) and the goal is derivable
+there within `max_depth`, DFS must report it provable — although the whole knowledge base is inconsistent and a dead end may
+assign, besides the sub-goal's field, fields that sibling conditions were proven on.  (F-C09e, clause (iv-b), is about rules
+that DO prove a wanted value and overwrite on the way; those are not dead ends.) -/
+
+/-- the `(field, value)` pairs some rule condition or the goal asks for -/
+def wantedPairs (kb : List Rule) (goal : Atom) : List (Nat × Val) :=
+  (goal.field, goal.val) :: kb.flatMap fun r => (condAtoms r.cond).map fun a => (a.field, a.val)
+
+def isDeadEnd (kb : List Rule) (goal : Atom) (r : Rule) : Bool :=
+  !r.acts.isEmpty && r.acts.all fun e => !(wantedPairs kb goal).contains e
+
+def withoutDeadEnds (kb : List Rule) (goal : Atom) : List Rule := kb.filter fun r => !isDeadEnd kb goal r
+
+def deadEndClause (kb : List Rule) (before : Facts) (maxDepth : Nat) (goal : Atom) : Bool :=
+  goal.op == .eq && kb.all (fun r => isConj r.cond) && plainKb kb && noIntLit kb &&
+    kb.any (isDeadEnd kb goal) &&
+    isHorn (withoutDeadEnds kb goal) before &&
+    derivableIn (withoutDeadEnds kb goal) (dataOf before) maxDepth goal
+
+def completeDeadEnds (kb : List Rule) (before : Facts) (maxDepth : Nat) (goal : Atom) (provable : Bool) : Bool :=
+  !deadEndClause kb before maxDepth goal || provable
+
 /-- smallest `k ≤ bound` with the goal in level `k` (for the evidence histogram) -/
 def levelOf (kb : List Rule) (d0 : Data) (goal : Atom) (bound : Nat) : Option Nat :=
   if evalAtom d0 goal then some 0
